@@ -40,7 +40,7 @@ Numbers ==
        v |-> [length |-> None, range |-> B("none", "none", FALSE), email |-> NoFlag, url |-> NoFlag]] }
 
 \* messages over character classes, at every offset, on a length validator of a String field
-MsgAlpha == {"a", "sp", "q", "ap", "bs", "lp", "rp", "cm", "u2", "u3", "u4", "w_email", "w_url", "w_min", "w_max", "w_message", "eq"}
+MsgAlpha == {"a", "sp", "q", "ap", "bs", "lp", "rp", "cm", "dot", "u2", "u3", "u4", "w_email", "w_url", "w_min", "w_max", "w_message", "eq"}
 RECURSIVE Msgs(_)
 Msgs(n) == IF n = 0 THEN {<<>>} ELSE LET sh == Msgs(n - 1) IN sh \cup {Append(m, x) : m \in {t \in sh : Len(t) = n - 1}, x \in MsgAlpha}
 Messages ==
@@ -73,6 +73,7 @@ CompanionCases ==
 \* messages with characters that need escaping, on EVERY validator and bound configuration (a message is rendered once
 \* per emitted constraint call: .min and .max of one validator carry the same text)
 EscMsgs == { <<x>> : x \in {"q", "bs", "ap", "u2"} } \cup { <<x, y>> : x \in {"q", "bs", "a"}, y \in {"q", "bs", "u3"} }
+           \cup { <<"lp", "a", "rp", "dot">>, <<"a", "rp", "dot", "w_min", "lp", "n1", "rp", "cm", "sp", "dot", "w_max", "lp">> }
            \cup { <<"a", "q", "sp", "bs", "bs", "sp", "ap", "u4">> }
 MsgSites ==
     { [kind |-> "v", tc |-> "string", split |-> "one_attr",
